@@ -162,8 +162,10 @@ fn process_modify_event(
         }
         ModifyKind::Name(rename_mode) => {
             match rename_mode {
-                // This event could be fired once on delete or twice on rename
-                RenameMode::Any => {
+                // This event could be fired once on delete or twice on rename.
+                // From/To: only one end of the rename is known, e.g. the path was
+                // moved out of, or into, the watched folders.
+                RenameMode::Any | RenameMode::From | RenameMode::To => {
                     if paths.len() != 1 {
                         panic!(
                             "File rename event should contain exactly one file. \
